@@ -29,6 +29,14 @@ func isNoValidateSlice(t types.Type) bool {
 
 // nvParam returns f's ...NoValidate parameter.
 func nvParam(f *ssa.Function) *ssa.Parameter {
+	if len(f.Params) > 0 && !f.Signature.Variadic() && isNewHelper(f) {
+		// a helper introduced since the baseline that is handed its caller's NoValidate list as a plain slice
+		for _, p := range f.Params {
+			if isNoValidateSlice(p.Type()) {
+				return p
+			}
+		}
+	}
 	if !f.Signature.Variadic() || len(f.Params) == 0 {
 		return nil
 	}
